@@ -226,6 +226,16 @@ Section DispatchLemmas.
                          (match ups with [] => true | _ => false end) (lv_node pl)).
   Proof. unfold run_help. intros ->. reflexivity. Qed.
 
+  (* the topic of the help command is looked up among the commands of the level by the name they
+     were declared with - the names the command line selects them by and completion offers after
+     `help ` (repair of D17) - and the help printed is that command's *)
+  Theorem help_command_topic st pl ups a0 rest c :
+    up st = pl :: ups ->
+    alookup a0 (n_cmds (lv_node pl)) = Some c ->
+    run_help specs st (a0 :: rest) =
+      DHelp (help_output specs (List.map (fun l => ni_name (n_info (lv_node l))) (rev (up st)) ++ [ni_name (n_info c)]) false c).
+  Proof. unfold run_help. intros -> ->. reflexivity. Qed.
+
   Theorem help_command_unknown_topic st pl ups a0 rest :
     up st = pl :: ups ->
     alookup a0 (n_cmds (lv_node pl)) = None ->
